@@ -48,7 +48,8 @@ class CHECK(Check):
             "streams of 1-8 concatenated registers of mixed types with canonical in-domain data (the model decides; others "
             "are skipped): every register is written with Register.write, its own type's matches() is evaluated on the "
             "output, then all are read back with Register.read and buffer.tell() is observed after every read. "
-            "non-trivial = stream of >= 2 records; distinct = hash")
+            "non-trivial = stream of >= 2 records; distinct = hash"
+            " Later additions: fields declared out of column order, identifiers beginning/ending with a blank (positional, binary), tab delimiter, class hierarchies, file-level binary read with an 8-byte window.")
 
     def gen(self, tier, rng):
         n = 3000 if tier == "quick" else 60000
